@@ -41,6 +41,18 @@ pub fn meta() -> Meta {
 // ===========================================================================
 
 const NAMES: [&str; 4] = ["", "a", "b", "c"];
+/// the same four symbols as names of more than 64 bytes, two of which share their first 64 bytes
+/// (`long` shards: hashing / comparison of long names)
+const LONG_NAMES: [&str; 4] = [
+    "",
+    "top.cpu0.core.pipeline.stage_execute.alu.operand_forwarding.bypass_a_valid",
+    "top.cpu0.core.pipeline.stage_execute.alu.operand_forwarding.bypass_b_valid",
+    "top.memory_subsystem.l2cache.bank3.way7.tag_compare.hit_qualified_by_parity",
+];
+static LONG: std::sync::atomic::AtomicBool = std::sync::atomic::AtomicBool::new(false);
+fn nm(i: usize) -> &'static str {
+    if LONG.load(std::sync::atomic::Ordering::Relaxed) { LONG_NAMES[i] } else { NAMES[i] }
+}
 /// a name that is never used by any call
 const UNUSED: &str = "d";
 
@@ -68,12 +80,12 @@ impl Op {
         }
     }
     fn show(&self) -> String {
-        let l = |v: &Vec<u8>| v.iter().map(|&i| format!("{:?}", NAMES[i as usize])).collect::<Vec<_>>().join(",");
+        let l = |v: &Vec<u8>| v.iter().map(|&i| format!("{:?}", nm(i as usize))).collect::<Vec<_>>().join(",");
         match self {
             Op::AddUnnamed(k) => format!("add_unnamed({k})"),
             Op::AddNamed(v) => format!("add_named([{}])", l(v)),
-            Op::SetName(v, s) => format!("set_var_name({v},{:?})", NAMES[*s as usize]),
-            Op::GetOrAdd(s) => format!("get_or_add({:?})", NAMES[*s as usize]),
+            Op::SetName(v, s) => format!("set_var_name({v},{:?})", nm(*s as usize)),
+            Op::GetOrAdd(s) => format!("get_or_add({:?})", nm(*s as usize)),
             Op::Reserve(k) => format!("reserve({k})"),
             Op::FromMap(v) => format!("add_named_vars_from_map([{}])", l(v)),
         }
@@ -220,7 +232,7 @@ fn model_step(model: &mut Vec<u8>, op: &Op) -> Ret {
                     continue;
                 }
                 if let Some(p) = pos(model, s) {
-                    return Ret::Dup { name: NAMES[s as usize].to_string(), present: p, added: (pre, model.len() as u32) };
+                    return Ret::Dup { name: nm(s as usize).to_string(), present: p, added: (pre, model.len() as u32) };
                 }
                 model.push(s);
             }
@@ -234,7 +246,7 @@ fn model_step(model: &mut Vec<u8>, op: &Op) -> Ret {
             match pos(model, *s) {
                 Some(p) if p != *v => {
                     let n = model.len() as u32;
-                    Ret::Dup { name: NAMES[*s as usize].to_string(), present: p, added: (n, n) }
+                    Ret::Dup { name: nm(*s as usize).to_string(), present: p, added: (n, n) }
                 }
                 _ => {
                     model[*v as usize] = *s;
@@ -269,16 +281,16 @@ fn real_step(m: &mut VarNameMap, op: &Op) -> Ret {
             m.add_unnamed(*k);
             Ret::Unit
         }
-        Op::AddNamed(l) | Op::FromMap(l) => match m.add_named(l.iter().map(|&i| NAMES[i as usize])) {
+        Op::AddNamed(l) | Op::FromMap(l) => match m.add_named(l.iter().map(|&i| nm(i as usize))) {
             Ok(r) => Ret::Range(r.start, r.end),
             Err(e) => dup_ret(e),
         },
-        Op::SetName(v, s) => match m.set_var_name(*v, NAMES[*s as usize]) {
+        Op::SetName(v, s) => match m.set_var_name(*v, nm(*s as usize)) {
             Ok(()) => Ret::SetOk,
             Err(e) => dup_ret(e),
         },
         Op::GetOrAdd(s) => {
-            let (v, f) = m.get_or_add(NAMES[*s as usize]);
+            let (v, f) = m.get_or_add(nm(*s as usize));
             Ret::GetOrAdd(v, f)
         }
         Op::Reserve(k) => {
@@ -317,7 +329,7 @@ fn ret_mismatch(op: &Op, exp: &Ret, got: &Ret) -> Option<(&'static str, String)>
 }
 
 fn names_of(model: &[u8]) -> Vec<&'static str> {
-    model.iter().map(|&i| NAMES[i as usize]).collect()
+    model.iter().map(|&i| nm(i as usize)).collect()
 }
 
 /// Invariants of the final state, cheapest first. `Err((class, msg, ub_prone))`.
@@ -337,16 +349,16 @@ fn check_map(m: &VarNameMap, model: &[u8]) -> Result<(), (&'static str, String, 
     // 2. var -> name (reads `names` only)
     for (v, &s) in model.iter().enumerate() {
         let got = m.var_name(v as u32);
-        if got != NAMES[s as usize] {
-            return Err(("var_name", format!("var_name({v}) = {got:?}, expected {:?} (model {:?})", NAMES[s as usize], names_of(model)), false));
+        if got != nm(s as usize) {
+            return Err(("var_name", format!("var_name({v}) = {got:?}, expected {:?} (model {:?})", nm(s as usize), names_of(model)), false));
         }
     }
     // 3. name -> var (probes the index): inverse of var_name on exactly the named variables
     for s in 1..4u8 {
         let exp = model.iter().position(|&x| x == s).map(|p| p as u32);
-        let got = m.name_to_var(NAMES[s as usize]);
+        let got = m.name_to_var(nm(s as usize));
         if got != exp {
-            return Err(("name_to_var", format!("name_to_var({:?}) = {got:?}, expected {exp:?} (model {:?})", NAMES[s as usize], names_of(model)), false));
+            return Err(("name_to_var", format!("name_to_var({:?}) = {got:?}, expected {exp:?} (model {:?})", nm(s as usize), names_of(model)), false));
         }
     }
     for s in ["", UNUSED] {
@@ -408,7 +420,7 @@ fn exec_history(hist: &[Op], model_before: &[u8]) -> Result<(), Bad> {
             return Err(Bad { class: "into_names_iter".into(), msg: format!("into_names_iter().len() = {n}, expected {}", model.len()), ub_prone: false, site: None });
         }
         let got: Vec<String> = it.collect();
-        if got.iter().map(|s| s.as_str()).ne(model.iter().map(|&i| NAMES[i as usize])) {
+        if got.iter().map(|s| s.as_str()).ne(model.iter().map(|&i| nm(i as usize))) {
             return Err(Bad { class: "into_names_iter".into(), msg: format!("into_names_iter() yields {got:?}, expected {:?}", names_of(&model)), ub_prone: false, site: None });
         }
         Ok(())
@@ -838,19 +850,19 @@ fn mgr_step<M: Manager>(m: &mut M, op: &Op) -> Ret {
             let r = m.add_vars(*k);
             Ret::Range(r.start, r.end)
         }
-        Op::AddNamed(l) => match m.add_named_vars(l.iter().map(|&i| NAMES[i as usize])) {
+        Op::AddNamed(l) => match m.add_named_vars(l.iter().map(|&i| nm(i as usize))) {
             Ok(r) => Ret::Range(r.start, r.end),
             Err(e) => dup_ret(e),
         },
         Op::FromMap(l) => {
             let mut map = VarNameMap::new();
-            map.add_named(l.iter().map(|&i| NAMES[i as usize])).expect("harness: list is a valid map");
+            map.add_named(l.iter().map(|&i| nm(i as usize))).expect("harness: list is a valid map");
             match m.add_named_vars_from_map(map) {
                 Ok(r) => Ret::Range(r.start, r.end),
                 Err(e) => dup_ret(e),
             }
         }
-        Op::SetName(v, s) => match m.set_var_name(*v, NAMES[*s as usize]) {
+        Op::SetName(v, s) => match m.set_var_name(*v, nm(*s as usize)) {
             Ok(()) => Ret::SetOk,
             Err(e) => dup_ret(e),
         },
@@ -898,15 +910,15 @@ fn check_mgr<M: Manager>(m: &M, model: &[u8], new_vars: (u32, u32)) -> Result<()
     }
     for (v, &s) in model.iter().enumerate() {
         let got = m.var_name(v as u32);
-        if got != NAMES[s as usize] {
-            return Err(("var_name", format!("var_name({v}) = {got:?}, expected {:?} (model {:?})", NAMES[s as usize], names_of(model)), false));
+        if got != nm(s as usize) {
+            return Err(("var_name", format!("var_name({v}) = {got:?}, expected {:?} (model {:?})", nm(s as usize), names_of(model)), false));
         }
     }
     for s in 1..4u8 {
         let exp = model.iter().position(|&x| x == s).map(|p| p as u32);
-        let got = m.name_to_var(NAMES[s as usize]);
+        let got = m.name_to_var(nm(s as usize));
         if got != exp {
-            return Err(("name_to_var", format!("name_to_var({:?}) = {got:?}, expected {exp:?} (model {:?})", NAMES[s as usize], names_of(model)), false));
+            return Err(("name_to_var", format!("name_to_var({:?}) = {got:?}, expected {exp:?} (model {:?})", nm(s as usize), names_of(model)), false));
         }
     }
     for s in ["", UNUSED] {
@@ -1584,6 +1596,7 @@ pub fn shards(tier: &str) -> Vec<String> {
         v.push(format!("a:{i}"));
     }
     v.push("a:graph".into());
+    v.push("a:graphlong".into());
     v.push("a:clone".into());
     for k in ["bdd", "bcdd", "zbdd", "mtbdd", "tdd"] {
         for i in 0..ops_b(0).len() {
@@ -1598,6 +1611,11 @@ pub fn run(ctx: &mut Ctx) {
     let parts: Vec<&str> = shard.split(':').collect();
     match (parts[0], parts[1]) {
         ("a", "graph") => run_a_graph(ctx),
+        ("a", "graphlong") => {
+            LONG.store(true, std::sync::atomic::Ordering::Relaxed);
+            assert!(LONG_NAMES[1].len() > 64 && LONG_NAMES[1][..64] == LONG_NAMES[2][..64] && LONG_NAMES[1] != LONG_NAMES[2]);
+            run_a_graph(ctx)
+        }
         ("a", "clone") => run_a_clone(ctx),
         ("a", i) => run_a_shard(ctx, i.parse().expect("bad shard")),
         ("b", k) => {
